@@ -66,6 +66,11 @@ var ErrTrailerChecksumMismatch = errors.New("BadDigest")
 // Its text is the S3 error code reported to the client.
 var ErrMalformedTrailer = errors.New("MalformedTrailerError")
 
+// ErrIncompleteBody is returned when an aws-chunked upload ends before its
+// terminating zero-length chunk, i.e. the body was truncated.
+// Its text is the S3 error code reported to the client.
+var ErrIncompleteBody = errors.New("IncompleteBody")
+
 type AccessKeyIdContextKey struct{}
 type AuthTypeContextKey struct{}
 type RequestIDContextKey struct{}
@@ -808,6 +813,18 @@ type awsChunkReadCloser struct {
 	skipChunkValidation            bool
 	trailerChecksumName            string
 	trailerHasher                  hash.Hash
+	finished                       bool
+}
+
+// incompleteBody maps the end of the inner stream to ErrIncompleteBody: inside
+// the chunk framing an io.EOF of the inner stream is never the regular end of
+// the upload (only the zero-length chunk is), and must not reach the consumer
+// as io.EOF.
+func incompleteBody(err error) error {
+	if err == io.EOF || err == io.ErrUnexpectedEOF {
+		return ErrIncompleteBody
+	}
+	return err
 }
 
 func newAwsChunkReadCloser(ctx context.Context, inner io.ReadCloser, timestamp string, scope string, previousSignature string, verifier signatureVerifier, hasTrailingHeader bool, hasTrailingHeaderWithSignature bool, skipChunkValidation bool, trailerChecksumName string) *awsChunkReadCloser {
@@ -907,10 +924,13 @@ func (r *awsChunkReadCloser) validateTrailerChecksum(checksumHeader string) erro
 }
 
 func (r *awsChunkReadCloser) Read(p []byte) (n int, err error) {
+	if r.finished {
+		return 0, io.EOF
+	}
 	if r.chunkBytesRemaining <= 0 {
 		chunkMetadata, err := r.innerBuf.ReadBytes('\n')
 		if err != nil {
-			return 0, err
+			return 0, incompleteBody(err)
 		}
 		split := bytes.SplitN(bytes.Trim(chunkMetadata, "\r\n"), []byte(";chunk-signature="), 2)
 		hexLen := string(split[0])
@@ -955,10 +975,11 @@ func (r *awsChunkReadCloser) Read(p []byte) (n int, err error) {
 				}
 			} else {
 				_, err := r.innerBuf.Discard(2) // Discard the final \r\n
-				if err != nil {
+				if err != nil && err != io.EOF {
 					return 0, err
 				}
 			}
+			r.finished = true
 			return 0, io.EOF // End of the chunked transfer
 		}
 	}
@@ -967,6 +988,7 @@ func (r *awsChunkReadCloser) Read(p []byte) (n int, err error) {
 		p = p[:r.chunkBytesRemaining] // Limit the read to the remaining bytes in the chunk
 	}
 	n, err = io.ReadFull(r.innerBuf, p)
+	err = incompleteBody(err)
 	if !r.skipChunkValidation {
 		r.chunkHasher.Write(p[:n])
 	}
@@ -977,7 +999,7 @@ func (r *awsChunkReadCloser) Read(p []byte) (n int, err error) {
 	if r.chunkBytesRemaining == 0 {
 		_, err := r.innerBuf.Discard(2) // Discard the trailing \r\n
 		if err != nil {
-			return 0, err
+			return 0, incompleteBody(err)
 		}
 		if !r.skipChunkValidation {
 			err = r.validateSignature()
